@@ -72,7 +72,19 @@ def run(ctx):
             os.remove(os.path.join(ctx.run_dir, f))
     with concurrent.futures.ThreadPoolExecutor(max_workers=nchild + 1) as ex:
         futs = [ex.submit(child, i) for i in range(1, nchild + 1)]
-        ok, out = ctx.gv("c13", extra)
+        # a file system whose readdir order follows creation order (tmpfs: newest first), so that the
+        # permuted copies really are enumerated in different orders (ext4 orders by name hash)
+        scratch = None
+        if os.path.isdir("/dev/shm") and os.access("/dev/shm", os.W_OK):
+            scratch = f"/dev/shm/gv-c13-{os.getpid()}"
+            os.makedirs(scratch, exist_ok=True)
+        try:
+            ok, out = ctx.gv("c13", extra, scratch=scratch)
+        finally:
+            if scratch:
+                import shutil
+                shutil.rmtree(scratch, ignore_errors=True)
+        ctx.notes.append("scratch for permuted copies: " + ("tmpfs /dev/shm (readdir order = reverse creation order)" if scratch else "default file system (enumeration order may not vary)"))
         kids = [f.result() for f in futs]
     for i, rc, o in kids:
         if rc != 0:
